@@ -506,6 +506,7 @@ Definition visit_qubit_decl (name : string) (size : option expr) : M (list stmt)
   guard (negb (check_in_scope s name)) EValidation;;;
   guard (negb (is_constant_name name)) EValidation;;;
   guard (n <? 100000) (EUnmodelled "huge register");;;
+  s <- getst;;
   putres (add_var s name (mkVar KQubit (Some n) None VVNone false true false));;;
   modify (fun s =>
     let s := with_qreg_sizes s (sset name n (qreg_sizes s)) in
